@@ -4,14 +4,24 @@ import Infretis.Lemmas.Config
 
 Property theorems only (helper lemmas live in `Infretis/Lemmas/Config.lean`).
 Model: `Infretis/Model/Config.lean` (mirrors setup.py `check_config`, the defaults block of
-`setup_config`, and repex.py `initiate_ensembles`).  All statements are for configurations of
-any size (any number of interfaces, moves, engines).
+`setup_config`, and repex.py `initiate_ensembles`, as repaired by /repo commit 729bb50).
+All statements are for configurations of any size (any number of interfaces, moves, engines).
 
-The code as it is does NOT guarantee `check c = ok → Valid c`: the cap is only compared with
-the first and the last interface, a cap of 0.0 is skipped by truthiness, and nothing asks that
-the cap leaves room for a wire-fencing ensemble.  Hence `accept_sound_counterexample`,
-`accept_sound_partial`.  Likewise not every rejection is a TOMLConfigError
-(`reject_is_config_error_counterexample`, `reject_is_config_error_partial`).
+History.  Before the repair the code did NOT guarantee `check c = ok → Valid c`: the cap was
+only compared with the first and the last interface, a cap of 0.0 was skipped by truthiness,
+nothing asked that the cap leaves room for a wire-fencing ensemble, an empty interface list
+raised IndexError, and ensemble_engines could be too short or contain an empty list.  The
+former counterexample witnesses (`capBelowWf`, `capZero`, `capAtFirst`, `emptyWithLm1`,
+`enginesShort`, `ensembleWithoutEngine`) are kept below: `old_witnesses_rejected` proves that
+the repaired `check` rejects each of them with a configuration error; they are also in
+corpus/C18 and replayed against the real code on every run.
+
+What remains guarded: `check_config` can still raise KeyError (not TOMLConfigError) from the
+gromacs loop, which pops `input_path` from every referenced engine as soon as one engine is of
+class gromacs (`gromacs_key_error_witness`).  This only happens to configurations that are
+`Valid` in the property's sense, so the property's sentences hold at full strength
+(`accept_sound`, `invalid_rejected`, `setup_invalid_rejected`); the guard appears only in
+`reject_is_config_error`, which speaks about *every* rejection.
 -/
 namespace Infretis.C18
 open Infretis.Config
@@ -43,24 +53,36 @@ structure Valid (c : Cfg) : Prop where
   engines : EnginesDefined c
   lm1 : ∀ x, c.lm1 = .val x → ∃ f, c.interfaces.head? = some f ∧ x < f
 
-/-- what `check_config` implements, declaratively (`check_ok_iff`) -/
-structure CodeOk (c : Cfg) : Prop where
+/-- every ensemble has a non-empty engine list (what the first picks index into) -/
+def EnginesCover (c : Cfg) : Prop :=
+  ∃ ee, c.ensEngines = some ee ∧ c.interfaces.length ≤ ee.length ∧ ∀ names ∈ ee, names ≠ []
+
+/-- what `check_config` implements before the gromacs loop, declaratively (`preCheck_ok_iff`) -/
+structure PreOk (c : Cfg) : Prop where
+  two : 2 ≤ c.interfaces.length
   lm1 : ∀ x, c.lm1 = .val x → ∃ f, c.interfaces.head? = some f ∧ x < f
   noQuantisLm1 : ¬ (c.quantis = some true ∧ ∃ x, c.lm1 = .val x ∧ x ≠ 0)
-  two : 2 ≤ c.interfaces.length
   workers : c.workers ≤ (c.interfaces.length : Int) - 1
   sorted : c.interfaces.Pairwise (· < ·)
   moves : c.interfaces.length ≤ c.moves.length
-  /-- only a non-zero cap is looked at, and only against the first and last interface -/
-  cap : ∀ x, c.cap = some x → x ≠ 0 → CapInside c x
+  capInside : ∀ x, c.cap = some x → CapInside c x
+  capRoom : ∀ x, c.cap = some x → WfRoom c x
+  cover : EnginesCover c
   engines : EnginesDefined c
-  /-- the gromacs check: a referenced gromacs engine and every referenced engine have an
-      `input_path`, and no referenced engine with the same path differs from it -/
-  gromacs : ∀ ee, c.ensEngines = some ee →
+
+/-- the gromacs rule: a referenced gromacs engine and every referenced engine have an
+    `input_path`, and no referenced engine with the same path differs from it -/
+def GromacsOk (c : Cfg) : Prop :=
+  ∀ ee, c.ensEngines = some ee →
     ∀ k1 e1, (∃ names ∈ ee, k1 ∈ names) → c.engines.lookup k1 = some e1 → e1.cls = 0 →
       ∃ p1, e1.inputPath = some p1 ∧
         ∀ k2 e2, (∃ names ∈ ee, k2 ∈ names) → c.engines.lookup k2 = some e2 →
           ∃ p2, e2.inputPath = some p2 ∧ ¬ (differ e1 e2 ∧ p1 = p2)
+
+/-- what `check_config` implements, declaratively (`check_ok_iff`) -/
+structure CodeOk (c : Cfg) : Prop where
+  pre : PreOk c
+  gromacs : GromacsOk c
 
 /-! ### the single tests -/
 
@@ -78,73 +100,152 @@ theorem lm1Test_ok_iff (l : Lm1) (intf : List Int) :
       omega
 
 theorem lm1Test_error (l : Lm1) (intf : List Int) (e : Err)
-    (hg : intf ≠ [] ∨ ∀ x, l ≠ .val x) : lm1Test l intf = .error e → e = .config := by
+    (hg : intf ≠ []) : lm1Test l intf = .error e → e = .config := by
   cases l with
   | absent => simp [lm1Test]
   | off => simp [lm1Test]
   | val x =>
     cases intf with
-    | nil =>
-      rcases hg with h | h
-      · exact absurd rfl h
-      · exact absurd rfl (h x)
+    | nil => exact absurd rfl hg
     | cons h t => exact rejectIf_error _ e
+
+theorem head_last_exist (intf : List Int) (hn : intf ≠ []) :
+    ∃ f l, intf.head? = some f ∧ intf.getLast? = some l := by
+  obtain ⟨f, hf⟩ : ∃ f, intf.head? = some f := by
+    cases intf with
+    | nil => exact absurd rfl hn
+    | cons a t => exact ⟨a, rfl⟩
+  obtain ⟨l, hl⟩ : ∃ l, intf.getLast? = some l := by
+    cases h : intf.getLast? with
+    | none => exact absurd (List.getLast?_eq_none_iff.1 h) hn
+    | some l => exact ⟨l, rfl⟩
+  exact ⟨f, l, hf, hl⟩
 
 theorem capTest_ok_iff (cap : Option Int) (intf : List Int) (hn : intf ≠ []) :
     capTest cap intf = .ok () ↔
-      ∀ x, cap = some x → x ≠ 0 →
+      ∀ x, cap = some x →
         ∃ f l, intf.head? = some f ∧ intf.getLast? = some l ∧ f ≤ x ∧ x ≤ l := by
   cases cap with
   | none => simp [capTest]
   | some x =>
-    simp only [capTest, Option.some.injEq, forall_eq']
-    by_cases hx : x = 0
-    · simp [hx]
-    · rw [if_neg hx]
-      obtain ⟨f, hf⟩ : ∃ f, intf.head? = some f := by
-        cases intf with
-        | nil => exact absurd rfl hn
-        | cons a t => exact ⟨a, rfl⟩
-      obtain ⟨l, hl⟩ : ∃ l, intf.getLast? = some l := by
-        cases h : intf.getLast? with
-        | none => exact absurd (List.getLast?_eq_none_iff.1 h) hn
-        | some l => exact ⟨l, rfl⟩
-      simp only [hf, hl, seq_ok_iff, rejectIf_ok_iff, decide_eq_false_iff_not, Option.some.injEq,
-        exists_and_left, exists_eq_left']
-      omega
+    obtain ⟨f, l, hf, hl⟩ := head_last_exist intf hn
+    simp only [capTest, Option.some.injEq, forall_eq', hf, hl, seq_ok_iff, rejectIf_ok_iff,
+      decide_eq_false_iff_not, exists_and_left, exists_eq_left']
+    omega
 
 theorem capTest_error (cap : Option Int) (intf : List Int) (e : Err) (hn : intf ≠ []) :
     capTest cap intf = .error e → e = .config := by
   cases cap with
   | none => simp [capTest]
   | some x =>
-    simp only [capTest]
-    split
-    · simp
-    · obtain ⟨f, hf⟩ : ∃ f, intf.head? = some f := by
-        cases intf with
-        | nil => exact absurd rfl hn
-        | cons a t => exact ⟨a, rfl⟩
-      obtain ⟨l, hl⟩ : ∃ l, intf.getLast? = some l := by
-        cases h : intf.getLast? with
-        | none => exact absurd (List.getLast?_eq_none_iff.1 h) hn
-        | some l => exact ⟨l, rfl⟩
-      simp only [hf, hl, seq_error_iff]
-      rintro (h | ⟨_, h⟩) <;> exact rejectIf_error _ e h
+    obtain ⟨f, l, hf, hl⟩ := head_last_exist intf hn
+    simp only [capTest, hf, hl, seq_error_iff]
+    rintro (h | ⟨_, h⟩) <;> exact rejectIf_error _ e h
 
-theorem engineTest_ok_iff (c : Cfg) :
-    engineTest c = .ok () ↔
-      EnginesDefined c ∧
-      (∀ ee, c.ensEngines = some ee →
-        ∀ k1 e1, (∃ names ∈ ee, k1 ∈ names) → c.engines.lookup k1 = some e1 → e1.cls = 0 →
-          ∃ p1, e1.inputPath = some p1 ∧
-            ∀ k2 e2, (∃ names ∈ ee, k2 ∈ names) → c.engines.lookup k2 = some e2 →
-              ∃ p2, e2.inputPath = some p2 ∧ ¬ (differ e1 e2 ∧ p1 = p2)) := by
-  unfold engineTest EnginesDefined
+theorem roomLoop_ok_iff (x : Int) : ∀ (intf : List Int) (ms : List Bool), ms.length ≤ intf.length →
+    (roomLoop x intf ms = .ok () ↔
+      ∀ (j : Nat) (l : Int), ms[j]? = some true → intf[j]? = some l → l < x) := by
+  intro intf
+  induction intf with
+  | nil =>
+    intro ms h
+    cases ms with
+    | nil => simp [roomLoop]
+    | cons m ms' => simp at h
+  | cons a t ih =>
+    intro ms h
+    cases ms with
+    | nil => simp [roomLoop]
+    | cons m ms' =>
+      simp only [roomLoop]
+      have h' : ms'.length ≤ t.length := by simpa using h
+      split
+      · rename_i hc
+        simp only [Bool.and_eq_true, decide_eq_true_eq] at hc
+        simp only [reduceCtorEq, false_iff]
+        intro hall
+        have := hall 0 a (by simp [hc.1]) (by simp)
+        omega
+      · rename_i hc
+        simp only [Bool.and_eq_true, decide_eq_true_eq, not_and] at hc
+        rw [ih ms' h']
+        constructor
+        · intro hall j l hm hl
+          cases j with
+          | zero =>
+            simp only [List.getElem?_cons_zero, Option.some.injEq] at hm hl
+            subst hl
+            have := hc hm
+            omega
+          | succ j' =>
+            simp only [List.getElem?_cons_succ] at hm hl
+            exact hall j' l hm hl
+        · intro hall j l hm hl
+          exact hall (j + 1) l (by simpa using hm) (by simpa using hl)
+
+theorem roomLoop_error (x : Int) (e : Err) : ∀ (intf : List Int) (ms : List Bool),
+    ms.length ≤ intf.length → roomLoop x intf ms = .error e → e = .config := by
+  intro intf
+  induction intf with
+  | nil =>
+    intro ms h
+    cases ms with
+    | nil => simp [roomLoop]
+    | cons m ms' => simp at h
+  | cons a t ih =>
+    intro ms h
+    cases ms with
+    | nil => simp [roomLoop]
+    | cons m ms' =>
+      simp only [roomLoop]
+      split
+      · intro he; cases he; rfl
+      · exact ih ms' (by simpa using h)
+
+theorem slice_length (intf : List Int) (moves : List Bool) :
+    ((moves.drop 1).take (intf.length - 1)).length ≤ intf.length := by
+  simp only [List.length_take, List.length_drop]
+  omega
+
+theorem roomTest_ok_iff (c : Cfg) :
+    roomTest c.cap c.interfaces c.moves = .ok () ↔ ∀ x, c.cap = some x → WfRoom c x := by
+  unfold roomTest
+  cases hc : c.cap with
+  | none => simp
+  | some x =>
+    simp only [Option.some.injEq, forall_eq']
+    rw [roomLoop_ok_iff x _ _ (slice_length _ _)]
+    unfold WfRoom
+    constructor
+    · intro h k l hk1 hkn hm hl
+      obtain ⟨j, rfl⟩ : ∃ j, k = j + 1 := ⟨k - 1, by omega⟩
+      refine h j l ?_ (by simpa using hl)
+      rw [List.getElem?_take]
+      rw [if_pos (by omega), List.getElem?_drop]
+      rw [Nat.add_comm]; exact hm
+    · intro h j l hm hl
+      rw [List.getElem?_take] at hm
+      split at hm
+      · rename_i hj
+        rw [List.getElem?_drop, Nat.add_comm] at hm
+        exact h (j + 1) l (by omega) (by omega) hm (by simpa using hl)
+      · cases hm
+
+theorem roomTest_error (c : Cfg) (e : Err) :
+    roomTest c.cap c.interfaces c.moves = .error e → e = .config := by
+  unfold roomTest
+  cases c.cap with
+  | none => simp
+  | some x => exact roomLoop_error x e _ _ (slice_length _ _)
+
+theorem engineListTest_ok_iff (c : Cfg) :
+    engineListTest c = .ok () ↔ EnginesCover c ∧ EnginesDefined c := by
+  unfold engineListTest EnginesCover EnginesDefined
   cases hee : c.ensEngines with
   | none => simp
   | some ee =>
-    simp only [seq_ok_iff, rejectIf_ok_iff, Option.some.injEq, exists_eq_left', forall_eq']
+    simp only [seq_ok_iff, rejectIf_ok_iff, Option.some.injEq, exists_eq_left',
+      decide_eq_false_iff_not, Nat.not_lt]
     have hdef : (uniqueEngines ee).any (fun k => (c.engines.lookup k).isNone) = false ↔
         ∀ names ∈ ee, ∀ e ∈ names, (c.engines.lookup e).isSome = true := by
       rw [List.any_eq_false]
@@ -156,9 +257,33 @@ theorem engineTest_ok_iff (c : Cfg) :
         obtain ⟨names, hn, he'⟩ := (uniqueEngines_mem e ee).1 he
         have := h names hn e he'
         cases hl : c.engines.lookup e <;> simp_all
-    rw [hdef]
-    apply and_congr_right
-    intro _
+    have hemp : ee.any (fun names => names.isEmpty) = false ↔ ∀ names ∈ ee, names ≠ [] := by
+      rw [List.any_eq_false]
+      constructor
+      · intro h names hn he
+        exact h names hn (by simp [he])
+      · intro h names hn
+        have := h names hn
+        simpa using this
+    rw [hdef, hemp]
+    exact ⟨fun ⟨a, b, d⟩ => ⟨⟨a, b⟩, d⟩, fun ⟨⟨a, b⟩, d⟩ => ⟨a, b, d⟩⟩
+
+theorem engineListTest_error (c : Cfg) (e : Err) (hne : c.ensEngines ≠ none) :
+    engineListTest c = .error e → e = .config := by
+  unfold engineListTest
+  cases hee : c.ensEngines with
+  | none => exact absurd hee hne
+  | some ee =>
+    simp only [seq_error_iff]
+    rintro (h | ⟨_, h | ⟨_, h⟩⟩) <;> exact rejectIf_error _ e h
+
+theorem gromacsTest_ok_iff (c : Cfg) (hne : c.ensEngines ≠ none) :
+    gromacsTest c = .ok () ↔ GromacsOk c := by
+  unfold gromacsTest GromacsOk
+  cases hee : c.ensEngines with
+  | none => exact absurd hee hne
+  | some ee =>
+    simp only [Option.some.injEq, forall_eq']
     rw [gmxOuter_ok_iff]
     constructor
     · intro h k1 e1 hk1 hl1 hc
@@ -176,71 +301,99 @@ theorem engineTest_ok_iff (c : Cfg) :
       obtain ⟨k2, hk2, hl2⟩ := lookupAll_mem.1 he2
       exact hin k2 e2 ((uniqueEngines_mem k2 ee).1 hk2) hl2
 
-/-- guard under which the engine checks raise nothing but TOMLConfigError: the
-    `ensemble_engines` key is there (setup_config guarantees it) and every engine table has an
-    `input_path`, or no engine table is of class gromacs -/
-def EngineKeysPresent (c : Cfg) : Prop :=
-  c.ensEngines ≠ none ∧
-    ((∀ p ∈ c.engines, p.2.inputPath ≠ none) ∨ (∀ p ∈ c.engines, p.2.cls ≠ 0))
+/-- the one remaining guard: every engine table has an `input_path`, or none is of class
+    gromacs (then the gromacs loop never pops a missing key) -/
+def InputPathsPresent (c : Cfg) : Prop :=
+  (∀ p ∈ c.engines, p.2.inputPath ≠ none) ∨ (∀ p ∈ c.engines, p.2.cls ≠ 0)
 
-theorem engineTest_error (c : Cfg) (e : Err) (hk : EngineKeysPresent c) :
-    engineTest c = .error e → e = .config := by
-  unfold engineTest
-  obtain ⟨hne, hk⟩ := hk
+theorem gromacsTest_error (c : Cfg) (e : Err) (hne : c.ensEngines ≠ none)
+    (hk : InputPathsPresent c) : gromacsTest c = .error e → e = .config := by
+  unfold gromacsTest
   cases hee : c.ensEngines with
   | none => exact absurd hee hne
   | some ee =>
-    simp only [seq_error_iff]
-    rintro (h | ⟨_, h⟩)
-    · exact rejectIf_error _ e h
-    · have hmem : ∀ e2 ∈ lookupAll c.engines (uniqueEngines ee), ∃ k, (k, e2) ∈ c.engines := by
+    intro h
+    have hmem : ∀ e2 ∈ lookupAll c.engines (uniqueEngines ee), ∃ k, (k, e2) ∈ c.engines := by
+      intro e2 h2
+      obtain ⟨k, _, hl⟩ := lookupAll_mem.1 h2
+      exact ⟨k, lookup_mem hl⟩
+    rcases hk with hk | hk
+    · have hall : ∀ e2 ∈ lookupAll c.engines (uniqueEngines ee), e2.inputPath ≠ none := by
         intro e2 h2
-        obtain ⟨k, _, hl⟩ := lookupAll_mem.1 h2
-        exact ⟨k, lookup_mem hl⟩
-      rcases hk with hk | hk
-      · have hall : ∀ e2 ∈ lookupAll c.engines (uniqueEngines ee), e2.inputPath ≠ none := by
-          intro e2 h2
-          obtain ⟨k, hm⟩ := hmem e2 h2
-          exact hk (k, e2) hm
-        exact gmxOuter_error _ e _ hall hall h
-      · have hng : ∀ e2 ∈ lookupAll c.engines (uniqueEngines ee), e2.cls ≠ 0 := by
-          intro e2 h2
-          obtain ⟨k, hm⟩ := hmem e2 h2
-          exact hk (k, e2) hm
-        rw [gmxOuter_no_gromacs _ _ hng] at h
-        cases h
+        obtain ⟨k, hm⟩ := hmem e2 h2
+        exact hk (k, e2) hm
+      exact gmxOuter_error _ e _ hall hall h
+    · have hng : ∀ e2 ∈ lookupAll c.engines (uniqueEngines ee), e2.cls ≠ 0 := by
+        intro e2 h2
+        obtain ⟨k, hm⟩ := hmem e2 h2
+        exact hk (k, e2) hm
+      simp only [gmxOuter_no_gromacs _ _ hng] at h
+      cases h
 
 /-! ### what the code implements -/
 
 theorem lm1Truthy_iff (l : Lm1) : lm1Truthy l = true ↔ ∃ x, l = .val x ∧ x ≠ 0 := by
   cases l <;> simp [lm1Truthy]
 
+theorem preCheck_ok_iff (c : Cfg) : preCheck c = .ok () ↔ PreOk c := by
+  unfold preCheck
+  simp only [seq_ok_iff, rejectIf_ok_iff, lm1Test_ok_iff, decide_eq_false_iff_not,
+    Bool.and_eq_false_iff, ← Bool.not_eq_true (lm1Truthy c.lm1), lm1Truthy_iff,
+    Decidable.not_not, isort_eq_self_iff, distinct_length_eq_iff, roomTest_ok_iff,
+    engineListTest_ok_iff]
+  constructor
+  · rintro ⟨h1, h2, h3, h4, h5, h6, h7, h8, h9, h10, h11⟩
+    have hne : c.interfaces ≠ [] := by
+      intro h; rw [h] at h1; simp at h1
+    rw [capTest_ok_iff _ _ hne] at h8
+    refine ⟨by omega, h2, ?_, by omega, (pairwise_lt_iff _).2 ⟨h5, h6⟩, by omega, h8, h9, h10, h11⟩
+    rintro ⟨hq, hx⟩
+    rcases h3 with h3 | h3
+    · simp [hq] at h3
+    · exact h3 hx
+  · rintro ⟨h1, h2, h3, h4, h5, h6, h7, h8, h9, h10⟩
+    have hne : c.interfaces ≠ [] := by
+      intro h; rw [h] at h1; simp at h1
+    rw [capTest_ok_iff _ _ hne]
+    refine ⟨by omega, h2, ?_, by omega, ((pairwise_lt_iff _).1 h5).1, ((pairwise_lt_iff _).1 h5).2,
+      by omega, h7, h8, h9, h10⟩
+    by_cases hq : c.quantis = some true
+    · right; intro hx; exact h3 ⟨hq, hx⟩
+    · left; simpa using hq
+
+/-- whatever the tests before the gromacs loop raise is a TOMLConfigError (the only other
+    possibility, KeyError for a missing `ensemble_engines` key, is excluded by `setup_config`) -/
+theorem preCheck_error (c : Cfg) (e : Err) (hne : c.ensEngines ≠ none)
+    (h : preCheck c = .error e) : e = .config := by
+  unfold preCheck at h
+  simp only [seq_error_iff, rejectIf_ok_iff, decide_eq_false_iff_not] at h
+  rcases h with h | ⟨h1, h | ⟨_, h | ⟨_, h | ⟨_, h | ⟨_, h | ⟨_, h | ⟨_, h | ⟨_, h | ⟨_, h⟩⟩⟩⟩⟩⟩⟩⟩⟩
+  · exact rejectIf_error _ e h
+  · refine lm1Test_error _ _ e ?_ h
+    intro hn; rw [hn] at h1; simp at h1
+  · exact rejectIf_error _ e h
+  · exact rejectIf_error _ e h
+  · exact rejectIf_error _ e h
+  · exact rejectIf_error _ e h
+  · exact rejectIf_error _ e h
+  · refine capTest_error _ _ e ?_ h
+    intro hn; rw [hn] at h1; simp at h1
+  · exact roomTest_error c e h
+  · exact engineListTest_error c e hne h
+
+theorem PreOk.ensEngines_ne_none {c : Cfg} (h : PreOk c) : c.ensEngines ≠ none := by
+  obtain ⟨ee, hee, _⟩ := h.engines
+  rw [hee]; simp
+
 /-- **Exact acceptance condition.** `check_config` returns normally iff `CodeOk`. -/
 theorem check_ok_iff (c : Cfg) : check c = .ok () ↔ CodeOk c := by
   unfold check
-  simp only [seq_ok_iff, rejectIf_ok_iff, lm1Test_ok_iff, decide_eq_false_iff_not,
-    Bool.and_eq_false_iff, ← Bool.not_eq_true (lm1Truthy c.lm1), lm1Truthy_iff,
-    Decidable.not_not, isort_eq_self_iff, distinct_length_eq_iff]
+  rw [seq_ok_iff, preCheck_ok_iff]
   constructor
-  · rintro ⟨h1, h2, h3, h4, h5, h6, h7, h8, h9⟩
-    have hne : c.interfaces ≠ [] := by
-      intro h; rw [h] at h3; simp at h3
-    rw [capTest_ok_iff _ _ hne] at h8
-    rw [engineTest_ok_iff] at h9
-    refine ⟨h1, ?_, by omega, by omega, (pairwise_lt_iff _).2 ⟨h5, h6⟩, by omega, h8, h9.1, h9.2⟩
-    rintro ⟨hq, hx⟩
-    rcases h2 with h2 | h2
-    · simp [hq] at h2
-    · exact h2 hx
-  · rintro ⟨h1, h2, h3, h4, h5, h6, h7, h8, h9⟩
-    have hne : c.interfaces ≠ [] := by
-      intro h; rw [h] at h3; simp at h3
-    rw [capTest_ok_iff _ _ hne, engineTest_ok_iff]
-    refine ⟨h1, ?_, by omega, by omega, ((pairwise_lt_iff _).1 h5).1, ((pairwise_lt_iff _).1 h5).2,
-      by omega, h7, h8, h9⟩
-    by_cases hq : c.quantis = some true
-    · right; intro hx; exact h2 ⟨hq, hx⟩
-    · left; simpa using hq
+  · rintro ⟨hp, hg⟩
+    exact ⟨hp, (gromacsTest_ok_iff c hp.ensEngines_ne_none).1 hg⟩
+  · rintro ⟨hp, hg⟩
+    exact ⟨hp, (gromacsTest_ok_iff c hp.ensEngines_ne_none).2 hg⟩
 
 /-- a concrete accepted configuration: 3 interfaces, wire fencing in [1+], cap 3 -/
 def good : Cfg :=
@@ -253,70 +406,27 @@ def good : Cfg :=
 example : check good = .ok () := by decide
 example : CodeOk good := (check_ok_iff good).1 (by decide)
 
-/-! ### accepted ⇒ valid: false as stated, true outside the cap holes -/
+/-! ### accepted ⇒ valid, at full strength -/
 
-/-- witness 1: interfaces [0,2,4], moves [sh,sh,wf], cap 1 — accepted, but the wire-fencing
-    ensemble [1+] sits on interface 2 ≥ cap (in the code's units: [0,1,2], cap 0.5) -/
-def capBelowWf : Cfg := { good with cap := some 1 }
+theorem PreOk.valid {c : Cfg} (h : PreOk c) : Valid c :=
+  { sorted := h.sorted, two := h.two, workers := h.workers, moves := h.moves,
+    capInside := h.capInside, capRoom := h.capRoom, engines := h.engines, lm1 := h.lm1 }
 
-/-- witness 2: interfaces [1,2,3], cap 0 — accepted because `if intf_cap and …` skips 0.0,
-    although the cap is outside the interfaces -/
-def capZero : Cfg := { good with interfaces := [1, 2, 3], moves := [false, false, false], cap := some 0 }
+/-- **Soundness of acceptance.** Every configuration `check_config` lets through satisfies the
+    property's whole list: strictly increasing interfaces, at least two, workers ≤ n−1,
+    enough shooting moves, cap inside the interfaces and above the interface of every
+    wire-fencing ensemble, every referenced engine defined, λ₋₁ < λ₀. -/
+theorem accept_sound (c : Cfg) (h : check c = .ok ()) : Valid c :=
+  ((check_ok_iff c).1 h).pre.valid
 
-/-- witness 3: cap equal to the first interface with wire fencing in [0+]: `cap < intf[0]` is
-    not violated, yet [0+] has no room -/
-def capAtFirst : Cfg := { good with moves := [false, true, false], cap := some 0 }
+example : Valid good := accept_sound good (by decide)
 
-/-- **Full statement is false of the code:** `∀ c, check c = ok → Valid c` fails. -/
-theorem accept_sound_counterexample : ¬ ∀ c : Cfg, check c = .ok () → Valid c := by
-  intro h
-  have hv := h capBelowWf (by decide)
-  have := hv.capRoom 1 rfl 2 2 (by decide) (by decide) (by decide) (by decide)
-  omega
+/-- accepted configurations also give every ensemble a non-empty engine list, which is what
+    the first picks index into (`ens_engs[ens_num + 1]`, `assign_engines`) -/
+theorem accept_engines_cover (c : Cfg) (h : check c = .ok ()) : EnginesCover c :=
+  ((check_ok_iff c).1 h).pre.cover
 
-/-- the cap-of-zero hole, separately -/
-theorem accept_sound_counterexample_cap_zero : check capZero = .ok () ∧ ¬ Valid capZero := by
-  refine ⟨by decide, ?_⟩
-  intro hv
-  obtain ⟨f, l, hf, _, h1, _⟩ := hv.capInside 0 rfl
-  simp [capZero, good] at hf
-  omega
-
-theorem accept_sound_counterexample_cap_at_first : check capAtFirst = .ok () ∧ ¬ Valid capAtFirst := by
-  refine ⟨by decide, ?_⟩
-  intro hv
-  have := hv.capRoom 0 rfl 1 0 (by decide) (by decide) (by decide) (by decide)
-  omega
-
-/-- **Soundness of acceptance outside the defect.** If the cap (when given) is non-zero and
-    leaves room for every wire-fencing ensemble, an accepted configuration is valid. -/
-theorem accept_sound_partial (c : Cfg) (h : check c = .ok ())
-    (hcap : ∀ x, c.cap = some x → x ≠ 0 ∧ WfRoom c x) : Valid c := by
-  have hc := (check_ok_iff c).1 h
-  exact {
-    sorted := hc.sorted, two := hc.two, workers := hc.workers, moves := hc.moves
-    capInside := fun x hx => hc.cap x hx (hcap x hx).1
-    capRoom := fun x hx => (hcap x hx).2
-    engines := hc.engines, lm1 := hc.lm1 }
-
-example : (∀ x, good.cap = some x → x ≠ 0 ∧ WfRoom good x) := by
-  intro x hx
-  have : x = 3 := by simp [good] at hx; omega
-  subst this
-  refine ⟨by decide, ?_⟩
-  intro k l h1 h2 hm hl
-  have hk : k = 1 ∨ k = 2 := by simp [good] at h2; omega
-  rcases hk with rfl | rfl
-  · simp [good] at hm
-  · simp [good] at hl; omega
-
-/-- without a cap every accepted configuration is valid -/
-theorem accept_sound_nocap (c : Cfg) (h : check c = .ok ()) (hcap : c.cap = none) : Valid c :=
-  accept_sound_partial c h (fun x hx => by rw [hcap] at hx; cases hx)
-
-example : check { good with cap := none } = .ok () := by decide
-
-/-- … and the default cap (the last interface) leaves room for every wire-fencing ensemble -/
+/-- the default cap (the last interface) leaves room for every wire-fencing ensemble -/
 theorem default_cap_room (c : Cfg) (hv : Valid c) (l : Int) (hl : c.interfaces.getLast? = some l) :
     WfRoom c l := by
   intro k a hk1 hkn _ ha
@@ -324,36 +434,43 @@ theorem default_cap_room (c : Cfg) (hv : Valid c) (l : Int) (hl : c.interfaces.g
   exact pairwise_lt_getElem hv.sorted (by omega) ha hl
 
 example : Valid { good with cap := none } ∧ ({ good with cap := none } : Cfg).interfaces.getLast? = some 4 :=
-  ⟨accept_sound_nocap _ (by decide) rfl, by decide⟩
+  ⟨accept_sound _ (by decide), by decide⟩
 
-/-- Conversely the code rejects nothing the property allows, except through its two extra
-    rules (quantis together with a non-zero λ₋₁, and the gromacs `input_path` rule). -/
+/-- Conversely the code rejects nothing the property allows, except through its extra rules:
+    quantis together with a non-zero λ₋₁, an ensemble without (enough) engine lists, and the
+    gromacs `input_path` rule. -/
 theorem valid_accepted (c : Cfg) (hv : Valid c)
     (hq : ¬ (c.quantis = some true ∧ ∃ x, c.lm1 = .val x ∧ x ≠ 0))
-    (hg : ∀ p ∈ c.engines, p.2.cls ≠ 0) : check c = .ok () := by
+    (hcov : EnginesCover c) (hg : ∀ p ∈ c.engines, p.2.cls ≠ 0) : check c = .ok () := by
   rw [check_ok_iff]
   exact {
-    lm1 := hv.lm1, noQuantisLm1 := hq, two := hv.two, workers := hv.workers, sorted := hv.sorted
-    moves := hv.moves, cap := fun x hx _ => hv.capInside x hx, engines := hv.engines
+    pre := { two := hv.two, lm1 := hv.lm1, noQuantisLm1 := hq, workers := hv.workers,
+             sorted := hv.sorted, moves := hv.moves, capInside := hv.capInside,
+             capRoom := hv.capRoom, cover := hcov, engines := hv.engines }
     gromacs := fun ee _ k1 e1 _ hl hc => absurd hc (hg (k1, e1) (lookup_mem hl)) }
 
-example : Valid good ∧ (∀ p ∈ good.engines, p.2.cls ≠ 0) := by
-  refine ⟨accept_sound_partial good (by decide) ?_, by decide⟩
-  intro x hx
-  have : x = 3 := by simp [good] at hx; omega
-  subst this
-  refine ⟨by decide, ?_⟩
-  intro k l h1 h2 hm hl
-  have hk : k = 1 ∨ k = 2 := by simp [good] at h2; omega
-  rcases hk with rfl | rfl
-  · simp [good] at hm
-  · simp [good] at hl; omega
+example : Valid good ∧ EnginesCover good ∧ (∀ p ∈ good.engines, p.2.cls ≠ 0) :=
+  ⟨accept_sound good (by decide), accept_engines_cover good (by decide), by decide⟩
 
-/-! ### every rejection is a configuration error: false as stated, true with the keys present -/
+/-! ### invalid ⇒ rejected with a configuration error, at full strength -/
 
-/-- empty interface list together with a λ₋₁: `intf[0]` raises IndexError before
-    "Define at least 2 interfaces!" is reached -/
-def emptyWithLm1 : Cfg := { good with interfaces := [], workers := 0, moves := [] }
+/-- **Invalid configurations are rejected with a TOMLConfigError.**  The only hypothesis is
+    that the `ensemble_engines` key is present, which `setup_config` guarantees
+    (`setup_invalid_rejected` has no hypothesis at all).  No `input_path` guard is needed: every
+    clause of `Valid` is tested before the gromacs loop. -/
+theorem invalid_rejected (c : Cfg) (hinv : ¬ Valid c) (hne : c.ensEngines ≠ none) :
+    check c = .error .config := by
+  unfold check
+  cases hp : preCheck c with
+  | ok u => cases u; exact absurd ((preCheck_ok_iff c).1 hp).valid hinv
+  | error e => rw [preCheck_error c e hne hp]; rfl
+
+example : ¬ Valid { good with interfaces := [0, 4, 2] } ∧
+    ({ good with interfaces := [0, 4, 2] } : Cfg).ensEngines ≠ none := by
+  refine ⟨?_, by decide⟩
+  intro hv
+  have := hv.sorted
+  simp at this
 
 /-- a gromacs engine next to an engine without `input_path` (e.g. turtlemd in [0-]):
     `eng2.pop("input_path")` raises KeyError on an otherwise valid configuration -/
@@ -363,68 +480,67 @@ def mixedEngines : Cfg :=
     engines := [("engine", { cls := 0, inputPath := some 1, other := 7 }),
                 ("engine0", { cls := 1, inputPath := none, other := 8 })] }
 
-theorem reject_is_config_error_counterexample :
-    check emptyWithLm1 = .error .index ∧ check mixedEngines = .error .key := by
-  constructor <;> decide
+/-- **What remains guarded.** `check_config` can still raise KeyError — but only on a
+    configuration that is `Valid`. -/
+theorem gromacs_key_error_witness : check mixedEngines = .error .key ∧ Valid mixedEngines := by
+  refine ⟨by decide, ?_⟩
+  have hp : preCheck mixedEngines = .ok () := by decide
+  exact ((preCheck_ok_iff _).1 hp).valid
 
-/-- **Error kind.** With a non-empty interface list (or no λ₋₁) and the engine keys present,
-    whatever `check_config` raises is a TOMLConfigError. -/
-theorem reject_is_config_error_partial (c : Cfg) (e : Err)
-    (hi : c.interfaces ≠ [] ∨ ∀ x, c.lm1 ≠ .val x) (hk : EngineKeysPresent c)
-    (h : check c = .error e) : e = .config := by
+/-- a rejection that is not a TOMLConfigError happens only to `Valid` configurations -/
+theorem non_config_error_only_if_valid (c : Cfg) (e : Err) (hne : c.ensEngines ≠ none)
+    (h : check c = .error e) (he : e ≠ .config) : Valid c := by
+  apply Classical.byContradiction
+  intro hinv
+  rw [invalid_rejected c hinv hne] at h
+  cases h
+  exact he rfl
+
+/-- **Error kind of every rejection.** With the `ensemble_engines` key present and the
+    `input_path` guard, whatever `check_config` raises is a TOMLConfigError. -/
+theorem reject_is_config_error (c : Cfg) (e : Err) (hne : c.ensEngines ≠ none)
+    (hk : InputPathsPresent c) (h : check c = .error e) : e = .config := by
   unfold check at h
-  simp only [seq_error_iff, rejectIf_ok_iff, decide_eq_false_iff_not] at h
-  rcases h with h | ⟨_, h | ⟨_, h | ⟨h3, h | ⟨_, h | ⟨_, h | ⟨_, h | ⟨_, h | ⟨_, h⟩⟩⟩⟩⟩⟩⟩⟩
-  · exact lm1Test_error _ _ e hi h
-  · exact rejectIf_error _ e h
-  · exact rejectIf_error _ e h
-  · exact rejectIf_error _ e h
-  · exact rejectIf_error _ e h
-  · exact rejectIf_error _ e h
-  · exact rejectIf_error _ e h
-  · refine capTest_error _ _ e ?_ h
-    intro hn; rw [hn] at h3; simp at h3
-  · exact engineTest_error c e hk h
+  rw [seq_error_iff] at h
+  rcases h with h | ⟨_, h⟩
+  · exact preCheck_error c e hne h
+  · exact gromacsTest_error c e hne hk h
 
-example : (good.interfaces ≠ [] ∨ ∀ x, good.lm1 ≠ .val x) ∧ EngineKeysPresent good ∧
-    check { good with workers := 3 } = .error .config := by
-  refine ⟨Or.inl (by decide), ⟨by decide, Or.inr (by decide)⟩, by decide⟩
+example : good.ensEngines ≠ none ∧ InputPathsPresent good ∧
+    check { good with workers := 3 } = .error .config :=
+  ⟨by decide, Or.inr (by decide), by decide⟩
 
-/-- **The property's first sentence, outside the defects.**  An invalid configuration whose
-    cap (if any) is non-zero and leaves wire-fencing room is rejected, and with a
-    TOMLConfigError. -/
-theorem invalid_rejected_partial (c : Cfg) (hinv : ¬ Valid c)
-    (hcap : ∀ x, c.cap = some x → x ≠ 0 ∧ WfRoom c x)
-    (hi : c.interfaces ≠ [] ∨ ∀ x, c.lm1 ≠ .val x) (hk : EngineKeysPresent c) :
-    check c = .error .config := by
-  cases hc : check c with
-  | ok u => cases u; exact absurd (accept_sound_partial c hc hcap) hinv
-  | error e => rw [reject_is_config_error_partial c e hi hk hc]
+/-! ### the former defects are closed -/
 
-example : ¬ Valid { good with interfaces := [0, 4, 2] } ∧
-    check { good with interfaces := [0, 4, 2] } = .error .config := by
-  refine ⟨?_, by decide⟩
-  intro hv
-  have := hv.sorted
-  simp at this
+/-- [0,2,4], moves sh,sh,wf, cap 1 (code units [0,1,2], cap 0.5): [1+] sits on interface 2 ≥ cap -/
+def capBelowWf : Cfg := { good with cap := some 1 }
+/-- [1,2,3], cap 0: was skipped by `if intf_cap and …` -/
+def capZero : Cfg := { good with interfaces := [1, 2, 3], moves := [false, false, false], cap := some 0 }
+/-- cap equal to the first interface with wire fencing in [0+] -/
+def capAtFirst : Cfg := { good with moves := [false, true, false], cap := some 0 }
+/-- empty interface list together with a λ₋₁: was IndexError from `intf[0]` -/
+def emptyWithLm1 : Cfg := { good with interfaces := [], workers := 0, moves := [] }
+/-- one engine list for three ensembles: was IndexError at the first pick -/
+def enginesShort : Cfg := { good with ensEngines := some [["engine"]] }
+/-- an ensemble with an empty engine list: was ValueError at the first pick -/
+def ensembleWithoutEngine : Cfg := { good with ensEngines := some [["engine"], [], ["engine"]] }
+
+/-- the witnesses of the five repaired defects are now all rejected with a TOMLConfigError
+    (before the repair: accepted, accepted, accepted, IndexError, accepted, accepted) -/
+theorem old_witnesses_rejected :
+    check capBelowWf = .error .config ∧ check capZero = .error .config ∧
+    check capAtFirst = .error .config ∧ check emptyWithLm1 = .error .config ∧
+    check enginesShort = .error .config ∧ check ensembleWithoutEngine = .error .config := by
+  decide
 
 /-! ### the defaults are a fixed point -/
 
 /-- **Normalisation is idempotent.** What the defaults block produces is left unchanged by
     running the block again (a restart file carries the normalised values). -/
-theorem normalise_idempotent (c c' : Cfg) (h : normalise c = .ok c') : normalise c' = .ok c' := by
+theorem normalise_idempotent (c : Cfg) : normalise (normalise c) = normalise c := by
   obtain ⟨intf, w, mv, cap, lm1, q, ee, eng, seed, acc⟩ := c
-  unfold normalise at h
-  simp only [hasEnsEngs, quantisOn] at h
-  -- case analysis on the optional fields that drive the branches
-  rcases ee with _ | ⟨_ | ⟨n0, ee⟩⟩ <;> rcases q with _ | _ | _ <;>
-    simp only [Bool.not_true, Bool.not_false, Bool.and_true, Bool.and_false, decide_true,
-      decide_false, Bool.false_eq_true, if_false, if_true, reduceCtorEq, Option.some.injEq] at h
-  all_goals first
-    | (cases intf with
-        | nil => first | (cases h; cases lm1 <;> cases seed <;> cases acc <;> rfl) | cases h
-        | cons a t => cases h; cases lm1 <;> cases seed <;> cases acc <;> rfl)
-    | (cases h; cases lm1 <;> cases seed <;> cases acc <;> rfl)
+  rcases ee with _ | ⟨_ | ⟨n0, ee⟩⟩ <;> rcases q with _ | _ | _ <;> cases intf <;>
+    cases lm1 <;> cases seed <;> cases acc <;> rfl
 
 /-- a raw configuration: no ensemble_engines, seed, lambda_minus_one, accept_all keys; quantis on -/
 def raw : Cfg :=
@@ -435,23 +551,46 @@ def rawNormalised : Cfg :=
   { good with
     ensEngines := some [["engine0"], ["engine"], ["engine"]], quantis := some true, lm1 := .off }
 
-example : normalise raw = .ok rawNormalised ∧ normalise rawNormalised = .ok rawNormalised := by decide
+example : normalise raw = rawNormalised ∧ normalise rawNormalised = rawNormalised := by decide
+
+theorem normalise_ensEngines (c : Cfg) : (normalise c).ensEngines ≠ none := by
+  simp [normalise]
+
+/-- **The property's first sentence for `setup_config`, no hypotheses:** a configuration whose
+    normalised form is invalid is rejected with a TOMLConfigError. -/
+theorem setup_invalid_rejected (c : Cfg) (hinv : ¬ Valid (normalise c)) :
+    setupConfig c = .error .config := by
+  unfold setupConfig
+  rw [invalid_rejected _ hinv (normalise_ensEngines c)]
+
+example : ¬ Valid (normalise capBelowWf) := by
+  intro hv
+  have := hv.capRoom 1 rfl 2 2 (by decide) (by decide) (by decide) (by decide)
+  omega
+
+/-- … and whatever `setup_config` returns is normalised and valid -/
+theorem setup_accept_sound (c c' : Cfg) (h : setupConfig c = .ok c') :
+    c' = normalise c ∧ Valid c' ∧ EnginesCover c' := by
+  unfold setupConfig at h
+  cases hc : check (normalise c) with
+  | error e => simp [hc] at h
+  | ok u =>
+    cases u
+    simp only [hc, Except.ok.injEq] at h
+    subst h
+    exact ⟨rfl, accept_sound _ hc, accept_engines_cover _ hc⟩
 
 /-- `setup_config` returns a normalised, checked configuration; reading it again gives it back -/
 theorem setupConfig_fixed_point (c c' : Cfg) (h : setupConfig c = .ok c') : setupConfig c' = .ok c' := by
   unfold setupConfig at h
-  cases hn : normalise c with
-  | error e => simp [hn] at h
-  | ok c1 =>
-    simp only [hn] at h
-    cases hc : check c1 with
-    | error e => simp [hc] at h
-    | ok u =>
-      cases u
-      simp only [hc, Except.ok.injEq] at h
-      subst h
-      unfold setupConfig
-      simp [normalise_idempotent c c1 hn, hc]
+  cases hc : check (normalise c) with
+  | error e => simp [hc] at h
+  | ok u =>
+    cases u
+    simp only [hc, Except.ok.injEq] at h
+    subst h
+    unfold setupConfig
+    simp [normalise_idempotent, hc]
 
 example : setupConfig { good with ensEngines := none, seed := none } = .ok good := by decide
 
@@ -494,8 +633,8 @@ theorem ensIntfs_ok (intfs : List Int) (lm1 : Lm1) (h2 : 2 ≤ intfs.length) :
 theorem accepted_initialises (c : Cfg) (h : check c = .ok ()) (hl : c.lm1 ≠ .absent) :
     ∃ es, initEnsembles c = .ok es ∧ es.length = c.interfaces.length := by
   have hc := (check_ok_iff c).1 h
-  have h2 := hc.two
-  have hm := hc.moves
+  have h2 := hc.pre.two
+  have hm := hc.pre.moves
   unfold initEnsembles
   have key : ∀ lm1 : Lm1, ∃ es : List Ens, (match ensIntfs c.interfaces lm1 with
       | .error e => (Except.error e : Except Err (List Ens))
